@@ -554,3 +554,24 @@ Proof.
   exists 1056, d16_cfg, d16_ops.
   split; [vm_compute; reflexivity|]. split; [repeat constructor|]. split; vm_compute; reflexivity.
 Qed.
+
+(* leaving single-segment mode by an ACK: the timer fires (counter 1), the ACK of the retransmitted segment
+   arrives, the next poll resets the counter - the cumulative-progress disjunct of c05_rto_exit_ok2 *)
+Definition exit_ops : list vop :=
+  [VoWrite (repeat 0 (Z.to_nat 400)); VoPoll []; VoSetNow 3000000000; VoPoll [];
+   VoDeliver (wmsg ST_STATE 1 101 0); VoPoll []].
+
+Lemma rto_exit_nonvacuous :
+  exists w cfg ops,
+    vconfig_ok cfg = true /\ Forall op_msg_ok ops /\
+    existsb (fun st => (0 <? f_rto_retx (fs_pre st)) && (f_rto_retx (fs_post st) =? 0) &&
+                       (f_seg_removed (fs_pre st) <? f_seg_removed (fs_post st)) &&
+                       match fs_result st with FrPoll PollPending _ _ _ => true | _ => false end)
+            (wtrace w cfg ops) = true /\
+    forallb (c05_rto_exit_ok2 cfg) (wtrace w cfg ops) = true /\
+    forallb (c05_rto_exit_ok cfg) (wtrace w cfg ops) = true.
+Proof.
+  exists 100000, d16_cfg, exit_ops.
+  split; [vm_compute; reflexivity|]. split; [repeat constructor|].
+  split; [vm_compute; reflexivity|]. split; vm_compute; reflexivity.
+Qed.
